@@ -10,6 +10,7 @@ import (
 	"github.com/hashicorp/hcl-lang/schema"
 	"github.com/hashicorp/hcl/v2"
 	"github.com/hashicorp/hcl/v2/hclsyntax"
+	"github.com/hashicorp/hcl/v2/json"
 	"github.com/zclconf/go-cty/cty"
 )
 
@@ -98,7 +99,7 @@ func (a Any) ReferenceOrigins(ctx context.Context) reference.Origins {
 
 	if typ.IsObjectType() {
 		_, ok := a.expr.(*hclsyntax.ObjectConsExpr)
-		if !ok {
+		if !ok && !isJSONObjectExpr(a.expr) {
 			return a.refOriginsForNonComplexExpr(ctx)
 		}
 
@@ -192,4 +193,13 @@ func (a Any) refOriginsForNonComplexExpr(ctx context.Context) reference.Origins 
 		}
 	}
 	return origins
+}
+
+// isJSONObjectExpr returns true if the given expression is an object in JSON syntax
+func isJSONObjectExpr(expr hcl.Expression) bool {
+	if !json.IsJSONExpression(expr) {
+		return false
+	}
+	_, diags := hcl.ExprMap(expr)
+	return !diags.HasErrors()
 }
